@@ -268,7 +268,8 @@ def seq_lengths(ex, seq, st):
     if key in st.facts:
         return [(st.facts[key], st)]
     out = []
-    for n in range(getattr(ex, "seq_bound", 3) + 1):
+    bound = getattr(ex, "seq_bounds", {}).get(seq.name, getattr(ex, "seq_bound", 3))     # per-sequence override of the list bound
+    for n in range(bound + 1):
         st2 = st.fork()
         st2.facts[key] = n
         out.append((n, st2))
